@@ -70,8 +70,8 @@ class Flow(object):
         # type: () -> str
         return 'Flow({}, {})'.format(self.hint, self._names)
 
-    def add_name(self, name):
-        # type: (Name) -> None
+    def add_name(self, name, local=True):
+        # type: (Name, bool) -> None
         name.scope = self.scope
         if name.name in self.scope.globals:
             self.scope.top.add_global(name)
@@ -79,7 +79,8 @@ class Flow(object):
             # the binding belongs to an enclosing function: its names stay visible here
             pass
         else:
-            self.scope.locals.add(name.name)
+            if local:
+                self.scope.locals.add(name.name)
             insert_loc(self._names, name)
 
     @cached_property
